@@ -716,6 +716,17 @@ def fixed_scenarios(run: Run):
                 if fed is not None:
                     feeds_["shape"] = fed
                 scen[f"default-valued-input-feeds-a-shape/{how}"] = ({"x": xa, "shape": sh}, outs_, feeds_)
+            # Loop whose body does NOT keep a carried type invariant (a carried value loses a constant extent) while ANOTHER carried
+            # value is computed from it: after the second iteration the derived value has lost the extent too
+            for n_val, trips_val in ((2, 2), (1, 3), (3, 2), (2, 1)):
+                a0, b0 = argument(Tensor(np.float32, (3,))), argument(Tensor(np.float32, (3,)))
+                nn, trips = argument(Tensor(np.int64, (1,))), argument(Tensor(np.int64, ()))
+                a_fin, b_fin = op.loop(trips, v_initial=[a0, b0], body=lambda i, c, a, b: [
+                    op.const(np.array(True)), op.slice(a, op.const(np.array([0], np.int64)), nn), op.add(a, op.const(np.array(0, np.float32)))])
+                flat = op.const(np.array([-1], np.int64))
+                scen[f"loop-carried-type-not-invariant/n={n_val},trips={trips_val}"] = (
+                    {"a0": a0, "b0": b0, "n": nn, "trips": trips}, {"a_fin": op.reshape(a_fin, flat), "b_fin": op.reshape(b_fin, flat)},
+                    {"a0": np.arange(3, dtype=np.float32), "b0": np.ones(3, np.float32), "n": np.array([n_val], np.int64), "trips": np.array(trips_val, np.int64)})
         for name, (ins, outs, feeds) in scen.items():
             try:
                 with warnings.catch_warnings():
